@@ -12,7 +12,7 @@ COMMON_NOTE = (
 
 PROPS = {
     "C01": dict(
-        text="Kernel-checked theorems that the model of _check_dims/_check_shape/__instancecheck_str__ accepts exactly the shapes the declarative dim-string semantics (Matches under one total assignment extending the context) accepts, for every dim list, shape, memo and history; the branch structure of _check_dims and of the multi-axis part of _check_shape is TRANSLATED from the current source on every run (harness/translate.py -> Generated/CheckCode.lean) and proved equal to the model's checkDim / vstep by scripts that survive meaning-preserving restructurings and fail on others; the model is tied to the code by an exhaustive small-scope plus random differential run of verdicts and print_bindings() on histories of checks.",
+        text="Kernel-checked theorems that the model of _check_dims/_check_shape/__instancecheck_str__ accepts exactly the shapes the declarative dim-string semantics (Matches under one total assignment extending the context) accepts, for every dim list, shape, memo and history; the branch structure of _check_dims and of the multi-axis part of _check_shape is TRANSLATED from the current source on every run (harness/translate.py -> Generated/CheckCode.lean) and proved equal to the model's checkDim / vstep by scripts that survive meaning-preserving restructurings and fail on others; the index arithmetic of _check_shape (i, j = -(len(dims) - i - 1), 'if j == 0: j = None', the slices [:i] / [j:] / [i:j] under Python's slice rules, both rank tests) is translated as well and proved to take exactly the prefix / suffix / middle the model uses, for every number of axes, position of the multi-axis specifier and rank (C01_source_slices, C01_source_rank_tests, C01_source_slices_lists); the model is tied to the code by an exhaustive small-scope plus random differential run of verdicts and print_bindings() on histories of checks.",
         note="Modelled not verified: numpy.broadcast_shapes (compared with JV.bcast on every run), eval of symbolic axes outside the integer fragment (+ - * // unary minus, {arg}), dict ordering.",
         technique="Lean 4 proof (greedy walk = satisfiability, induction over axes and histories; source-to-model translation re-proved equal to the model on every run) + differential correspondence",
         design="§4 C01",
